@@ -459,7 +459,41 @@ def foreign_constant(got, want):
     return None
 
 
-def float_hazard(got, want):
+def foreign_denominator(got, want, den_map=None):
+    """a division by something the documented formula does not divide by: over the rationals (t * v) / v is t, (t*a + t*b) / (a + b)
+    is t — in binary64 they are NaN whenever the divisor is 0 or the product overflows.  The implementation may divide only by the
+    (normalised) divisors that occur in the documented term, and by constants."""
+    from norm import Normalizer
+    if not isinstance(got, tuple) or not isinstance(want, tuple):
+        return None
+    N = Normalizer()
+
+    def dens(t, m=None):
+        out = {}
+        for x in subterms(t):
+            if isinstance(x, tuple) and len(x) == 3 and x[0] == "/":
+                try:
+                    d_ = x[2]
+                    if m:
+                        from norm import _replace
+                        d_ = _replace(d_, m)   # (C01: accumulators inside a divisor are read through their window functionals)
+                    r = N.rat(d_).canon()
+                    if r.n.is_const() and r.d.is_const():
+                        continue
+                    out[("rat", r.n.key(), r.d.key())] = x[2]
+                    # a divisor that is itself a quotient a/b also divides by a (and multiplies by b)
+                    out[("rat", r.n.key(), Normalizer().rat(("c", "f64", 1.0)).n.key())] = x[2]
+                except Exception:
+                    out[repr(x[2])] = x[2]
+        return out
+    dw = dens(want)
+    for k, d in dens(got, den_map).items():
+        if k not in dw:
+            return "a division by %s, which the documented formula does not divide by (0/0 or inf/inf where it vanishes or overflows)" % show(d)[:70]
+    return None
+
+
+def float_hazard(got, want, den_map=None):
     """-> text or None: ways in which `got` can equal `want` over the rationals and still be a different floating-point function"""
     v = foreign_constant(got, want)
     if v is not None:
@@ -468,19 +502,31 @@ def float_hazard(got, want):
     hz = hazards(got)
     if hz:
         return hz[0]
-    # a quantity added inside the arms of a conditional and removed after the join: look at every resolved outcome as well
-    atoms = cond_atoms(got) if isinstance(got, tuple) else []
-    if atoms:
-        N = Normalizer()
-        n = 0
-        for f in assignments(atoms, N):
-            n += 1
-            if n > 1024:
-                return "more case splits than the hazard scan enumerates (UNRECOGNISED)"
-            f.pop(EQ_KEY, None)
-            hz = hazards(resolve(got, f), N)
-            if hz:
-                return hz[0]
+    # a quantity added inside the arms of a conditional and removed after the join, a divisor that differs from the documented one
+    # on one outcome only: look at every resolved outcome
+    atoms = []
+    for t_ in (got, want):
+        for a_ in (cond_atoms(t_) if isinstance(t_, tuple) else []):
+            if a_ not in atoms:
+                atoms.append(a_)
+    if not atoms:
+        return foreign_denominator(got, want, den_map)
+    N = Normalizer()
+    n = 0
+    for f in assignments(atoms, N):
+        n += 1
+        if n > 1024:
+            return "more case splits than the hazard scan enumerates (UNRECOGNISED)"
+        f.pop(EQ_KEY, None)
+        g_, w_ = resolve(got, f), resolve(want, f)
+        hz = hazards(g_, N)
+        if hz:
+            return hz[0]
+        if cond_atoms(g_) or cond_atoms(w_):
+            continue  # nested conditions not settled by this outcome: the enclosing comparison recursed into them already
+        fd = foreign_denominator(g_, w_, den_map)
+        if fd:
+            return fd
     return None
 
 
